@@ -133,6 +133,18 @@ func r132(c *Ctx, r *R) {
 
 func storedFieldsOf(f *ssa.Function, base ssa.Value) map[string]ssa.Value {
 	out := map[string]ssa.Value{}
+	// an object built by a helper of the repository and handed back: the
+	// fields the helper stored are the object's
+	if call, ok := stripLocal(base).(*ssa.Call); ok {
+		if h := call.Common().StaticCallee(); h != nil && h.Blocks != nil && h.Pkg != nil && h.Pkg == f.Pkg && h != f {
+			rets := returnsOf(h)
+			if len(rets) == 1 && len(rets[0].Results) == 1 {
+				for k, v := range storedFieldsOf(h, retResult(rets[0], 0)) {
+					out[k] = v
+				}
+			}
+		}
+	}
 	instrs(f, func(i ssa.Instruction) {
 		st, ok := i.(*ssa.Store)
 		if !ok {
@@ -294,7 +306,7 @@ func r134(c *Ctx, r *R) {
 			mk, _ = ci.(*ssa.Call)
 		}
 		var depthStores []*ssa.Store
-		instrs(fl, func(i ssa.Instruction) {
+		instrsDeep(fl, func(i ssa.Instruction) {
 			if st, ok := i.(*ssa.Store); ok {
 				if f, _ := fieldOfAddrValue(st.Addr); f != nil && f.Name() == "MaxDepth" {
 					depthStores = append(depthStores, st)
@@ -332,7 +344,15 @@ func r134(c *Ctx, r *R) {
 				}
 				if k == 1 {
 					for _, pc := range findCalls(fl, false, "adder.Pin") {
-						if dominatesInstr(st, pc) {
+						var at ssa.Instruction = st
+						if st.Parent() != fl {
+							// stored in a helper that builds the pin: the
+							// helper's call stands for it
+							if site := singleCallSite[st.Parent()]; site != nil && site.Parent() == fl {
+								at = site
+							}
+						}
+						if at.Parent() == fl && dominatesInstr(at, pc) {
 							has1 = true
 						}
 					}
@@ -393,6 +413,16 @@ func r135(c *Ctx, r *R) {
 		}
 		notAllErr, someOK := false, false
 		for _, g := range lf.Guards() {
+			// len(successful) > 0 in any spelling
+			if x, op, k, isCmp := cmpIntConst(g.Cond); isCmp {
+				if lc, _ := originCall(x); lc != nil && callName(lc.Common()) == "builtin.len" {
+					pos := op == token.NEQ && k == 0 || op == token.GTR && k == 0 || op == token.GEQ && k == 1
+					neg := op == token.EQL && k == 0 || op == token.LEQ && k == 0 || op == token.LSS && k == 1
+					if pos && g.Branch || neg && !g.Branch {
+						someOK = true
+					}
+				}
+			}
 			b, ok := g.Cond.(*ssa.BinOp)
 			if !ok || (b.Op != token.EQL && b.Op != token.NEQ) {
 				continue
